@@ -19,15 +19,11 @@ DISCHARGED = {
     ("rbx_types::attributes::reader::read_exact_or_none", "index", "tmp[range::RangeFrom{…}]"): "n <= buf.len() by the std::io::Read contract (same reliance as std's read_exact)",
     ("rbx_types::material_colors::MaterialColors::decode", "slice-op", "chunks∘buffer"): "chunk size is the constant 3",
     ("rbx_xml::deserializer::deserialize_properties", "macro:unimplemented", "unimplemented"): "dead wildcard arm over DataType {Value, Enum}: checked below",
-    ("<rbx_reflection_database::DATABASE as core::ops::deref::Deref>::deref::__static_ref_initialize", "macro:panic", "panic"): "decoding of the bundled database: C16.load",
     ("<rbx_types::shared_string::SharedString as core::ops::drop::Drop>::drop", "unwrap", "unwrap∘self.data.take()"): "`data` is Some until drop runs (C18.eq: only Drop empties it)",
     ("rbx_types::shared_string::SharedString::data", "unwrap", "unwrap∘self.data.as_ref()"): "as above",
     ("rbx_types::shared_string::SharedString::new", "unwrap", "unwrap∘shared_string::STRING_CACHE.lock()"): "poisoned only if a panic happened inside the critical section (C18.reent: none can)",
     ("rbx_dom_weak::dom::WeakDom::inner_insert", "unwrap", "unwrap∘self.instances.get_mut(referent)"): "the key was inserted by the statement before",
     ("rbx_dom_weak::dom::WeakDom::inner_insert", "unwrap", "unwrap∘UniqueId::now()"): "fails only if the system clock is before 2021 or after 2157 — environment, not input (documented in the source)",
-    ("rbx_xml::deserializer::deserialize_instance", "unwrap", "unwrap∘reader.expect_next()"): "PEEK — inside an arm of `match reader.expect_peek()?`: the peeked event is buffered, so expect_next returns it",
-    ("rbx_xml::deserializer::deserialize_root", "unwrap", "unwrap∘reader.expect_next()"): "PEEK",
-    ("rbx_xml::deserializer::deserialize_shared_string_dict", "unwrap", "unwrap∘reader.expect_next()"): "PEEK",
     ("rbx_xml::deserializer::deserialize_root", "macro:unreachable", "unreachable"): "xml-rs always yields StartDocument as the first event of a successful parse (trusted, DESIGN section 7)",
     (XR + "expect_peek", "unwrap", "unwrap_err∘self.expect_next()"): "in the `Some(Err(_))` arm of the peeked value: next() returns that buffered Err",
     (XR + "read_one_characters_event", "unwrap", "*"): "in an arm selected by peek(): next() returns the buffered item of that shape",
@@ -66,6 +62,7 @@ def rule_panic(c, prog, g, dreach):
     n = 0
     computed = 0
     treeids = 0
+    peeks = 0
     prov = None
     dbdep = 0
     fns_with_sites = 0
@@ -87,6 +84,20 @@ def rule_panic(c, prog, g, dreach):
                     computed += 1
                     c.ok(R, inst)
                     continue
+            if fn.crate == "rbx_reflection_database":
+                # the crate only decodes its own embedded database.msgpack: whether that can fail is a fact about the
+                # bundled file and the struct shapes (C16.load / C16.data), not about the decoder's input
+                c.ok(R, inst)
+                continue
+            if fn.crate == "rbx_xml" and is_expect_next_unwrap(s):
+                # PEEK — the event was peeked (and is therefore buffered) on every way to this unwrap: directly inside an
+                # arm of `match reader.expect_peek()?`, or in a private helper all of whose call sites are
+                if peeked_before(prog, fn, s["node"]):
+                    peeks += 1
+                    c.ok(R, inst)
+                else:
+                    c.violation(R, f"{fn.path}|{s['kind']}|{s['fp']}|no-peek", f"{fn.path}: `{s['fp']}` is not inside an arm of `match reader.expect_peek()?` (nor in a helper only called from such arms); without a buffered event expect_next can fail (EOF / XML error) and the unwrap panics", core.loc(s["node"]), instance=inst)
+                continue
             key_expr = C13_treeid.is_tree_lookup(s) if fn.crate == "rbx_xml" else None
             if key_expr is not None:
                 # the XML reader's own tree: ids of instances this decode inserted, never removed
@@ -130,6 +141,7 @@ def rule_panic(c, prog, g, dreach):
     c.floor(R, computed, 3, "index sites discharged by a computed bound (sa.bounds)")
     c.floor(R, dbdep, 5, "descriptor-lookup sites discharged by a database obligation")
     c.floor(R, treeids, 3, "XML tree lookups discharged by inserted-id provenance")
+    c.floor(R, peeks, 1, "expect_next().unwrap() sites discharged by a preceding peek")
     c.analysed["decoder_reachable_functions"] = len(dreach)
     c.sample({"rule": R, "sites": n, "functions_with_sites": fns_with_sites, "example_discharge": {"site": DS + "decode_prop_chunk | unwrap∘self.instances_by_ref.get_mut(referent)", "invariant": DISCHARGED[(DS + "decode_prop_chunk", "unwrap", "unwrap∘self.instances_by_ref.get_mut(referent)")]}})
     # the invariant behind PROV:referents: instances_by_ref.remove only in finish; inserts of referents in decode_inst_chunk
@@ -204,6 +216,30 @@ def provenance_referents(fn, node):
                 if x.get("k") == "Field" and x.get("f") == "referents":
                     return True
     return False
+
+
+def is_expect_next_unwrap(site):
+    n = site["node"]
+    if n.get("k") != "MethodCall" or n["m"] != "unwrap":
+        return False
+    r = core.strip(n["recv"])
+    return r.get("k") == "MethodCall" and r["m"] == "expect_next" and "XmlEventReader" in ((r["recv"].get("ty") or "") + (r["recv"].get("aty") or ""))
+
+
+def peeked_before(prog, fn, node, depth=0):
+    if inside_peek_match(fn, node):
+        return True
+    if depth >= 2 or (fn.d.get("vis") or "").startswith("Public"):
+        return False
+    # a private helper: every call site must itself be under a peek
+    sites = []
+    for f2 in prog.fns.values():
+        if f2.crate != fn.crate or f2.body is None or f2.dk == "Closure":
+            continue
+        for x in core.walk_fn(f2):
+            if x.get("k") in ("Call", "MethodCall") and core.callee(x) == fn.path:
+                sites.append((f2, x))
+    return bool(sites) and all(peeked_before(prog, f2, x, depth + 1) for f2, x in sites)
 
 
 def inside_peek_match(fn, node):
